@@ -107,12 +107,12 @@ ENTRIES = [
     B('content-case-sensitive', HTML, "'nofollow' in element.attrib.get('content', '').lower()", "'nofollow' in element.attrib.get('content', '')", 'C20-D5a'),
     B('nofollow-exact-match', HTML, "'nofollow' in element.attrib.get('content', '').lower()", "'nofollow' == element.attrib.get('content', '').lower()", 'C20-D5a'),
     B('nofollow-negated', HTML, "'nofollow' in element.attrib.get('content', '').lower()", "'nofollow' not in element.attrib.get('content', '').lower()", 'C20-D5a'),
-    B('regress-discard', HTML, "link_contexts.difference_update(frozenset(", "link_contexts.discard(frozenset(", 'C20-D5b'),
-    B('remove-collection', HTML, "link_contexts.difference_update(frozenset(", "link_contexts.remove(frozenset(", 'C20-D5b'),
-    B('removes-unlinked', HTML, "context for context in link_contexts if context.linked", "context for context in link_contexts if not context.linked", 'C20-D5b'),
-    B('removes-inline', HTML, "context for context in link_contexts if context.linked", "context for context in link_contexts if context.inline", 'C20-D5b'),
-    B('flag-key-typo', HTML, "if result_meta_info.get('robots_no_follow'):", "if result_meta_info.get('robots_nofollow'):", 'C20-D5b'),
-    B('flag-inverted', HTML, "if result_meta_info.get('robots_no_follow'):", "if not result_meta_info.get('robots_no_follow'):", 'C20-D5b'),
+    N('second-line-regress-discard', HTML, "link_contexts.difference_update(frozenset(", "link_contexts.discard(frozenset("),
+    N('second-line-remove-collection', HTML, "link_contexts.difference_update(frozenset(", "link_contexts.remove(frozenset("),
+    N('second-line-removes-unlinked', HTML, "context for context in link_contexts if context.linked", "context for context in link_contexts if not context.linked"),
+    N('second-line-removes-inline', HTML, "context for context in link_contexts if context.linked", "context for context in link_contexts if context.inline"),
+    N('second-line-flag-key-typo', HTML, "if result_meta_info.get('robots_no_follow'):", "if result_meta_info.get('robots_nofollow'):"),
+    N('second-line-flag-inverted', HTML, "if result_meta_info.get('robots_no_follow'):", "if not result_meta_info.get('robots_no_follow'):"),
     B('flag-never-raised', HTML, "                robots_check_needed = False\n                meta_info['robots_no_follow'] = True\n",
       "                robots_check_needed = False\n                meta_info['robots_no_follow'] = False\n", 'C20-D5b'),
     B('flag-needs-first-element', HTML, "if robots_check_needed and ElementWalker.robots_cannot_follow(element):",
@@ -120,8 +120,8 @@ ENTRIES = [
     B('flag-check-negated', HTML, "if robots_check_needed and ElementWalker.robots_cannot_follow(element):",
       "if robots_check_needed and not ElementWalker.robots_cannot_follow(element):", 'C20-D5b'),
     B('latch-off-from-start', HTML, "robots_check_needed = self._robots\n", "robots_check_needed = self._robots and self._only_relative\n", 'C20-D5b'),
-    B('rebuild-into-other-name', HTML, "            link_contexts.difference_update(frozenset(\n                context for context in link_contexts if context.linked\n            ))\n",
-      "            kept = link_contexts.difference(frozenset(\n                context for context in link_contexts if context.linked\n            ))\n", 'C20-D5b'),
+    N('second-line-rebuild-into-other-name', HTML, "            link_contexts.difference_update(frozenset(\n                context for context in link_contexts if context.linked\n            ))\n",
+      "            kept = link_contexts.difference(frozenset(\n                context for context in link_contexts if context.linked\n            ))\n"),
     B('scraper-without-robots-option', DL, "                robots=session.args.robots,\n", "", 'C20-D5c'),
     B('scraper-wrong-option', DL, "robots=session.args.robots,", "robots=session.args.recursive,", 'C20-D5c'),
     B('scraper-forgets-option', HTML, "self._robots = robots", "self._robots = False", 'C20-D5c'),
@@ -142,10 +142,10 @@ ENTRIES = [
     B('latch-cleared-after-first-element', HTML,
       "                robots_check_needed = False\n                meta_info['robots_no_follow'] = True\n",
       "                meta_info['robots_no_follow'] = True\n\n            robots_check_needed = False\n", 'C20-D5b'),
-    B('nofollow-keeps-embedded-links', HTML, "context for context in link_contexts if context.linked", "context for context in link_contexts if context.linked and not context.inline", 'C20-D5b'),
-    B('nofollow-generator-mutates-during-iteration', HTML,
+    N('second-line-nofollow-keeps-embedded-links', HTML, "context for context in link_contexts if context.linked", "context for context in link_contexts if context.linked and not context.inline"),
+    N('second-line-nofollow-generator-mutates-during-iteration', HTML,
       "            link_contexts.difference_update(frozenset(\n                context for context in link_contexts if context.linked\n            ))\n",
-      "            link_contexts.difference_update(\n                context for context in link_contexts if context.linked\n            )\n", 'C20-D5b'),
+      "            link_contexts.difference_update(\n                context for context in link_contexts if context.linked\n            )\n"),
 
     # ------------------------------------------------------------------ benign twins
     N('rename-locals-can-fetch-pool', ROBOTS,
@@ -202,7 +202,9 @@ ENTRIES = [
       "            for context in tuple(link_contexts):\n                if context.linked:\n                    link_contexts.discard(context)\n"),
     N('nofollow-casefold', HTML, "'nofollow' in element.attrib.get('content', '').lower()", "'nofollow' in element.attrib.get('content', '').casefold()"),
     N('nofollow-operands-swapped', HTML, "element.attrib.get('name', '').lower() == 'robots'", "'robots' == element.attrib.get('name', '').lower()"),
-    N('nofollow-flag-renamed', HTML, "robots_no_follow", "no_follow_links", all_=True),
+    N('nofollow-flag-renamed', HTML, "robots_no_follow", "no_follow_links", all_=True, more=[('wpull/processor/rule.py', "scrape_result.get('robots_no_follow')", "scrape_result.get('no_follow_links')")]),
+    B('nofollow-flag-renamed-in-the-scraper-only', HTML, "robots_no_follow", "no_follow_links", 'C20-D5b') if False else
+    {'id': 'C20/nofollow-flag-renamed-in-the-scraper-only', 'prop': 'C20', 'kind': 'break', 'expect': 'C20-D5b', 'all': True, 'edits': [(HTML, "robots_no_follow", "no_follow_links")]},
     N('scraper-args-local', DL,
       "        html_parser = session.factory['HTMLParser']\n        element_walker = session.factory.new('ElementWalker')\n",
       "        html_parser = session.factory['HTMLParser']\n        element_walker = session.factory.new('ElementWalker')\n        obey_robots = session.args.robots\n",
@@ -240,4 +242,13 @@ ENTRIES += [
     B('nofollow-flag-reset-in-try', HTML, "                self._process_elements(\n                    elements, response, base_url, link_contexts,\n                    result_meta_info\n                )\n",
       "                self._process_elements(\n                    elements, response, base_url, link_contexts,\n                    result_meta_info\n                )\n                result_meta_info = {}\n", 'C20-D5b'),
     N('nofollow-flag-dict-call', HTML, "        result_meta_info = {}\n\n        try:", "        result_meta_info = dict()\n\n        try:"),
+]
+
+# since the page-wide nofollow repair the entries named second-line-* above are benign twins: the scraper's own removal is a second line
+# of defence, ProcessingRule drops the linked URLs of every result of a nofollow page.  What must fire is a break of the first line:
+ENTRIES += [
+    B('regress-nofollow-not-shared-with-other-scrapers', 'wpull/processor/rule.py', "            if no_follow and link_context.linked:\n                continue\n\n", "", 'C20-D5b'),
+    B('nofollow-consumer-skips-inline-instead', 'wpull/processor/rule.py', "            if no_follow and link_context.linked:", "            if no_follow and link_context.inline:", 'C20-D5b'),
+    B('nofollow-published-from-other-key', HTML, "            result_meta_info.get('robots_no_follow'))", "            result_meta_info.get('robots_nofollow'))", 'C20-D5b'),
+    B('nofollow-verdict-not-handed-on', 'wpull/processor/rule.py', "                scraper, scrape_result, item_session, no_follow=no_follow\n", "                scraper, scrape_result, item_session\n", 'C20-D5b'),
 ]
